@@ -4,6 +4,7 @@ package main
 // Mirrors the op table of /verif/lean/Driver.lean.
 
 import (
+	"bytes"
 	"encoding/hex"
 	"errors"
 	"fmt"
@@ -807,12 +808,18 @@ func dispatch(op, pat string, args []string, a *argTrack) string {
 		var pkc babyjub.PublicKeyComp
 		copy(pkc[:], pb)
 		pk, err := pkc.Decompress()
+		if !bytes.Equal(pkc[:], pb) {
+			return "!ARGMUT(compressed public key changed by Decompress)"
+		}
 		if err != nil {
 			return "pk:" + classify(err)
 		}
 		var sc babyjub.SignatureComp
 		copy(sc[:], sb)
 		sig, err := sc.Decompress()
+		if !bytes.Equal(sc[:], sb) {
+			return "!ARGMUT(compressed signature changed by Decompress)"
+		}
 		if err != nil {
 			return "sig:" + classify(err)
 		}
@@ -851,6 +858,9 @@ func dispatch(op, pat string, args []string, a *argTrack) string {
 			sc := babyjub.SignatureComp(buf)
 			ret, err = sc.Decompress()
 			recv = ret
+			if sc != babyjub.SignatureComp(buf) {
+				return "!ARGMUT(compressed signature changed by Decompress)"
+			}
 		default:
 			panic("harness: bad route " + pat)
 		}
@@ -918,6 +928,9 @@ func dispatch(op, pat string, args []string, a *argTrack) string {
 			if c.String() != string(t) {
 				return "!String-differs-from-MarshalText"
 			}
+			if !bytes.Equal(c[:], b) {
+				return "!ARGMUT(compressed value changed by MarshalText/String)"
+			}
 			return showBytes(t)
 		case 64:
 			var c babyjub.SignatureComp
@@ -925,6 +938,9 @@ func dispatch(op, pat string, args []string, a *argTrack) string {
 			t, _ := c.MarshalText()
 			if c.String() != string(t) {
 				return "!String-differs-from-MarshalText"
+			}
+			if !bytes.Equal(c[:], b) {
+				return "!ARGMUT(compressed value changed by MarshalText/String)"
 			}
 			return showBytes(t)
 		}
